@@ -1,3 +1,12 @@
 -- Root of the `SierraModel` library: executable models (import-free) and property theorems.
-import SierraModel.Topology.Distribute
+import SierraModel.Props.C08
+import SierraModel.Props.C12
+import SierraModel.Props.C13
+import SierraModel.Props.C14
+import SierraModel.Props.C17
+import SierraModel.Props.C18
+import SierraModel.Props.C21
+import SierraModel.Props.C23
 import SierraModel.Props.C24
+import SierraModel.Props.C25
+import SierraModel.Props.C26
